@@ -916,3 +916,112 @@ Proof.
   intros Hs. destruct G as [D F]. split; [exact (F Hs)|].
   intros y I. unfold lsrc_items in I. rewrite (F Hs), app_nil_r in I. exact (D y I).
 Qed.
+
+(* ================================================================ pvMergeToLinear with MULTI-key trees *)
+Fixpoint ksle (l : list item) : Prop :=
+  match l with [] => True | a :: r => (forall b, In b r -> key a <= key b) /\ ksle r end.
+
+Lemma ksle_app l1 : forall l2, ksle (l1 ++ l2) <->
+  ksle l1 /\ ksle l2 /\ (forall a b, In a l1 -> In b l2 -> key a <= key b).
+Proof.
+  induction l1 as [|a l1 IH]; intros l2; simpl.
+  - split; [intros H; repeat split; auto; intros a b []|tauto].
+  - rewrite IH. split.
+    + intros (Ha & S1 & S2 & C). repeat split; auto.
+      * intros b Hb. apply Ha. apply in_or_app. left. exact Hb.
+      * intros x b [<-|Hx] Hb; [apply Ha; apply in_or_app; right; exact Hb|apply C; assumption].
+    + intros ((Ha & S1) & S2 & C). repeat split; auto.
+      intros b Hb. apply in_app_or in Hb. destruct Hb as [Hb|Hb]; [apply Ha; exact Hb|apply C; [left; reflexivity|exact Hb]].
+Qed.
+
+(* the multi-key loop never refuses: nothing is ever kept back in the source *)
+Lemma lstep_multi_kept c st : l_kept st = [] -> l_kept (lstep c true st) = [].
+Proof.
+  unfold lstep. destruct st as [kept rest dpre dpost w stat shape]. simpl. intros ->.
+  destruct stat; simpl; try reflexivity. destruct rest as [|x r]; simpl; [reflexivity|].
+  destruct (advance true w x dpre dpost) as [w1 [[p q]|]]; simpl; [|reflexivity].
+  destruct (step_alloc w1) as [w3|]; simpl; [|reflexivity].
+  destruct (pop shape) as [internal sh].
+  destruct (extract_reloc c w3 x (pred_of [] internal)) as [w4 [e|]]; reflexivity.
+Qed.
+
+Lemma lstep_finished_rest c multi st : (l_stat st = Finished -> l_rest st = []) ->
+  l_stat (lstep c multi st) = Finished -> l_rest (lstep c multi st) = [].
+Proof.
+  unfold lstep. destruct st as [kept rest dpre dpost w stat shape]. simpl. intros F.
+  destruct stat; simpl; try (intros H; try discriminate H; apply F; reflexivity).
+  destruct rest as [|x r]; simpl; [reflexivity|].
+  destruct (advance multi w x dpre dpost) as [w1 [[p q]|]]; simpl; [|discriminate].
+  destruct (if multi then (w1, Some true) else match q with [] => (w1, Some true)
+            | d :: _ => match step_func w1 with None => (fail_func w1, None) | Some w2 => (w2, Some (key x <? key d)) end end)
+    as [w2 [[|]|]]; simpl; try discriminate.
+  - destruct (step_alloc w2) as [w3|]; simpl; [|discriminate].
+    destruct (pop shape) as [internal sh].
+    destruct (extract_reloc c w3 x (pred_of kept internal)) as [w4 [e|]]; simpl; discriminate.
+  - destruct q; simpl; discriminate.
+Qed.
+
+(* a multi-key linear merge that ran to completion moved EVERY source item: the source is empty *)
+Theorem lmerge_multi_finished_empty c src dst w shape n :
+  l_stat (lrun c true n (linit src dst w shape)) = Finished -> lsrc_items (lrun c true n (linit src dst w shape)) = [].
+Proof.
+  assert (G : l_kept (lrun c true n (linit src dst w shape)) = [] /\
+              (l_stat (lrun c true n (linit src dst w shape)) = Finished -> l_rest (lrun c true n (linit src dst w shape)) = [])).
+  { induction n; simpl; [split; [reflexivity|discriminate]|]. destruct IHn as [K F].
+    split; [apply lstep_multi_kept; exact K|apply lstep_finished_rest; exact F]. }
+  intros Hs. destruct G as [K F]. unfold lsrc_items. rewrite K, (F Hs). reflexivity.
+Qed.
+
+Lemma advance_multi x : forall dpost w dpre w' p q,
+  advance true w x dpre dpost = (w', Some (p, q)) -> (forall d, In d dpre -> key d <= key x) ->
+  p ++ q = dpre ++ dpost /\ (forall d, In d p -> key d <= key x) /\
+  match q with [] => True | d :: _ => key x < key d end.
+Proof.
+  induction dpost as [|d r IH]; simpl; intros w dpre w' p q H Hp.
+  - inversion H; subst. auto.
+  - destruct (step_func w) as [w1|]; [|discriminate]. unfold is_ordered in H.
+    destruct (Z.ltb_spec (key x) (key d)) as [L|G]; simpl in H.
+    + inversion H; subst. split; [reflexivity|]. split; [exact Hp|exact L].
+    + apply IH in H.
+      * destruct H as (E & P & Q). split; [rewrite E, <- app_assoc; reflexivity|auto].
+      * intros e He. apply in_app_or in He. destruct He as [He|[<-|[]]]; [apply Hp; exact He|lia].
+Qed.
+
+Definition minv (st : lstate) : Prop :=
+  ksle (l_dpre st ++ l_dpost st) /\ ksle (l_rest st) /\
+  (forall d x, In d (l_dpre st) -> In x (l_rest st) -> key d <= key x).
+
+Lemma lstep_minv c st : minv st -> minv (lstep c true st).
+Proof.
+  unfold minv, lstep. destruct st as [kept rest dpre dpost w stat shape]. simpl.
+  destruct stat; simpl; try tauto.
+  destruct rest as [|x r]; simpl; [tauto|].
+  intros (Sd & (Hx & Sr) & C).
+  destruct (advance true w x dpre dpost) as [w1 [[p q]|]] eqn:Ea; simpl; [|repeat split; auto].
+  apply advance_multi in Ea; [|intros d Hd; apply C; [exact Hd|left; reflexivity]].
+  destruct Ea as (E & P & Q). rewrite <- E in Sd. apply ksle_app in Sd. destruct Sd as (Sp & Sq & Cpq).
+  assert (Same : ksle (p ++ q) /\ ((forall b, In b r -> key x <= key b) /\ ksle r) /\
+                 (forall d y, In d p -> x = y \/ In y r -> key d <= key y)).
+  { split; [apply ksle_app; auto|]. split; [auto|]. intros d y Hd [<-|Hy]; [apply P; exact Hd|].
+    specialize (P d Hd). specialize (Hx y Hy). lia. }
+  destruct (step_alloc w1) as [w3|]; simpl; [|exact Same].
+  destruct (pop shape) as [internal sh].
+  destruct (extract_reloc c w3 x (pred_of kept internal)) as [w4 [e|]] eqn:Ee; simpl; [|exact Same].
+  apply extract_reloc_value in Ee. subst e. split; [|split; [exact Sr|]].
+  - apply ksle_app. split; [|split; [exact Sq|]].
+    + apply ksle_app. split; [exact Sp|]. split; [simpl; split; [intros b []|exact I]|]. intros a b Ha [<-|[]]. apply P. exact Ha.
+    + intros a b Ha Hb. apply in_app_or in Ha. destruct Ha as [Ha|[<-|[]]]; [apply Cpq; assumption|].
+      destruct q as [|d dr]; [destruct Hb|]. destruct Hb as [<-|Hb]; [lia|]. simpl in Sq. destruct Sq as [Hd _]. specialize (Hd b Hb). lia.
+  - intros d y Hd Hy. apply in_app_or in Hd. specialize (Hx y Hy). destruct Hd as [Hd|[<-|[]]]; [specialize (P d Hd); lia|exact Hx].
+Qed.
+
+(* multi-key linear merge of sorted trees: the destination stays sorted at every step, for every schedule; an inserted
+   item goes AFTER every destination item with an equivalent key (advance_multi: everything it passes has key <= its key,
+   the item it stops at has a strictly greater key) *)
+Theorem lmerge_multi_sorted c src dst w shape n : ksle src -> ksle dst ->
+  ksle (ldst_items (lrun c true n (linit src dst w shape))).
+Proof.
+  intros Ss Sd. assert (G : minv (lrun c true n (linit src dst w shape))).
+  { induction n; simpl; [|apply lstep_minv; exact IHn]. unfold minv. simpl. repeat split; auto. intros d x []. }
+  exact (proj1 G).
+Qed.
